@@ -11,7 +11,7 @@ def _build(name):
         e.prop = 'C02'
         e.oracles = ('decoder',)
         e.weights = dict(append=20, iterappend=12, setitem=12, truncate=14, mode=3, reopen=6,
-                         append_bad=3, truncate_bad=2, meta=8, recreate=8)
+                         append_bad=3, truncate_bad=2, meta=8, recreate=8, iterappend_fail=6)
         return e
     from .engines import raggedhist as RH
     if name == 'C04':
@@ -26,11 +26,11 @@ def _build(name):
         a = AH.ArrayHistory()
         a.oracles = ('readme',)
         a.weights = dict(append=18, iterappend=10, setitem=4, truncate=14, mode=3, reopen=8,
-                         append_bad=3, truncate_bad=2, meta=22, recreate=10)
+                         append_bad=3, truncate_bad=2, meta=22, recreate=10, iterappend_fail=6)
         r = RH.RaggedHistory()
         r.oracles = ('readme',)
         r.weights = dict(append=26, iterappend=12, truncate=16, mode=3, reopen=10, append_bad=3,
-                         truncate_bad=2, getbad=0, iter=0, meta=8)
+                         truncate_bad=2, getbad=0, iter=0, meta=8, iterappend_fail=7)
         r.many_p = 0.45
         return Union('C08', [(1, a), (1, r)], quick_runs=2500, thorough_runs=60000, batch=25)
     if name == 'C13':
@@ -48,13 +48,13 @@ def _build(name):
         a = AH.ArrayHistory()
         a.oracles = ('ro', 'model', 'fresh')
         a.weights = dict(append=14, iterappend=8, setitem=14, truncate=10, mode=14, reopen=10,
-                         append_bad=2, truncate_bad=0, meta=22, recreate=0, delete=4)
+                         append_bad=2, truncate_bad=0, meta=22, recreate=0, delete=4, iterappend_fail=2)
         a.reopen_modes = ('r', 'default', 'default', 'r+')
         a.create_r_p = 0.5
         r = RH.RaggedHistory()
         r.oracles = ('ro', 'model', 'fresh')
         r.weights = dict(append=18, iterappend=10, truncate=12, mode=14, reopen=10, append_bad=2,
-                         truncate_bad=0, getbad=0, iter=0, meta=22, delete=4)
+                         truncate_bad=0, getbad=0, iter=0, meta=22, delete=4, iterappend_fail=2)
         r.reopen_modes = ('r', 'default', 'default', 'r+')
         r.create_r_p = 0.5
         r.create_empty_p = 0.1
@@ -101,7 +101,7 @@ def _build(name):
 
 
 # (quick runs, thorough runs), calibrated on this box (16 workers): quick ~30-50 s, thorough ~10-15 min
-RUNS = {'C02': (8000, 160000), 'C03': (10000, 200000), 'C04': (3000, 60000), 'C05': (4000, 80000),
+RUNS = {'C02': (8000, 160000), 'C03': (10000, 200000), 'C04': (2500, 50000), 'C05': (3000, 60000),
         'C08': (2500, 50000), 'C09': (15000, 300000), 'C10': (5000, 100000), 'C11': (5000, 100000),
         'C13': (8000, 160000), 'C17': (2000, 40000), 'C18': (10000, 200000), 'C19': (5000, 100000), 'C14': (6000, 120000), 'C12': (5000, 100000), 'C01': (6000, 150000), 'C15': (2500, 50000), 'C16': (6000, 120000), 'C20': (6000, 120000), 'C06': (3000, 60000), 'C07': (1500, 30000)}
 
